@@ -356,6 +356,8 @@ def f5(repo: Repo) -> RuleResult:
                 t = tpl_shape(e.args[0], lambda h: "{" + show(h) + "}") or "{?}"
                 if t.lstrip().startswith("#"):
                     out.append(("line", t.strip()))
+                elif "".join(t.split()) == "memset(m,0,sizeof(*m));":
+                    out.append(("zero",))
             elif e.kind == "loop":
                 it = single_atom(e.args[0]) if e.args else None
                 if it is not None and it[0] == "mcall" and it[1] == "format_op_mode_message_endian":
@@ -380,10 +382,12 @@ def f5(repo: Repo) -> RuleResult:
             res.unsure(f"F5: {e}")
             continue
         E = int(is_enc)
+        # the big-endian decoder statements only OR: they need a zeroed message in front of them
+        Z = [] if is_enc else [("zero",)]
         want = {
             "little": [("stmts", "self.d", E, 0, True)],
-            "big": [("stmts", "self.d", E, 1, True)],
-            "both": [("line", "#ifndef BP_BIG_ENDIAN"), ("stmts", "self.d", E, 0, True), ("line", "#else"), ("stmts", "self.d", E, 1, True), ("line", "#endif")],
+            "big": Z + [("stmts", "self.d", E, 1, True)],
+            "both": [("line", "#ifndef BP_BIG_ENDIAN"), ("stmts", "self.d", E, 0, True), ("line", "#else")] + Z + [("stmts", "self.d", E, 1, True), ("line", "#endif")],
         }
         for value in ("little", "big", "both"):
             try:
@@ -398,9 +402,14 @@ def f5(repo: Repo) -> RuleResult:
             if len(paths) != 1 or evs[0] is None:
                 res.unsure(f"F5: {cname}.render: --endian {value}: {len(paths)} paths / unrecognised loop; selection not decided by the endian value alone")
                 break
-            if evs[0] != want[value]:
+            got_cmp = list(evs[0])
+            if value == "little" and got_cmp[:1] == [("zero",)]:
+                got_cmp = got_cmp[1:]  # zeroing in front of the assigning little-endian statements is harmless
+            if is_enc:
+                got_cmp = [x for x in got_cmp if x != ("zero",)]
+            if got_cmp != want[value]:
                 got = evs[0]
-                res.bad(Finding("F5", m.mod("impls/c/renderer_c.py").rel, c.node.lineno, f"{cname}.render", str(got), f"for --endian {value} the {'encoder' if is_enc else 'decoder'} body is {got}; expected {want[value]} (little -> little-endian statements; big -> big-endian statements; both -> #ifndef BP_BIG_ENDIAN little #else big #endif, each for this message and direction)", witness="the default output runs the byte-pointer statements on a big-endian host / --endian little output contains the big-endian statements", tag=f"{cname}:selection"))
+                res.bad(Finding("F5", m.mod("impls/c/renderer_c.py").rel, c.node.lineno, f"{cname}.render", str(got), f"for --endian {value} the {'encoder' if is_enc else 'decoder'} body is {got}; expected {want[value]} (little -> little-endian statements; big -> big-endian statements; both -> #ifndef BP_BIG_ENDIAN little #else big #endif, each for this message and direction; the OR-only big-endian decoder statements preceded by memset(m, 0, sizeof(*m)))", witness="the default output runs the byte-pointer statements on a big-endian host / --endian little output contains the big-endian statements", tag=f"{cname}:selection"))
                 break
     # the flag function: mode flag = big_endian while the statements are generated, restored afterwards
     try:
